@@ -118,7 +118,7 @@ theorem protected_conflict_has_exclusive_side (a b : Access) (hc : conflict a b 
     underneath under the cache's proviso — each render is answered exactly as a fresh engine would answer it alone. -/
 theorem concurrent_eq_alone {C D : Type} (parse : C → Option D) (schedule : List (Cache.Op C))
     (hist : Go.Str → Nat → Option C) (s : Cache.State C D) (hi : C15.Inv parse hist s) (hw : C15.WFHist hist schedule) :
-    C15.outputs parse true s schedule = C15.freshOutputs parse s.fs schedule :=
+    C15.outputs parse true false s schedule = C15.freshOutputs parse s.fs schedule :=
   C15.cached_eq_fresh parse schedule hist s hi hw
 
 /-! non-vacuity -/
